@@ -122,25 +122,27 @@ is_6531_local (const char *start, const char *end)
              *    or before the last DQUOTE only.
              */
             case '\n': case '\r': case '\t': case ' ': {
+                const char *cp = start + utf8_decode_at_byte (&u);
+
                 switch (start[prev]) {
                     case '"':
                     case '\n': case '\r': case '\t': case ' ':
                         goto next;
                 }
 
-                if ((ch = utf8_decode_next (&u)) >= 0) {
-                    if (ch > 0x007f)
-                        break;
+                if (cp >= end - 1)
+                    break;
 
-                    switch (ch) {
-                        case '"':
-                            quote = !quote;
+                /* peek at the next byte, do not consume it */
+                switch (cp[1]) {
+                    case '"':
+                    case '\n': case '\r': case '\t': case ' ':
+                        break;
+                    default:
+                        /* a non-ASCII character may follow, as before */
+                        if ((unsigned char) cp[1] > 0x7f)
                             break;
-                        case '\n': case '\r': case '\t': case ' ':
-                            break;
-                        default:
-                            return inverse(EEAV_LPART_UNQUOTED_FWS);
-                    }
+                        return inverse(EEAV_LPART_UNQUOTED_FWS);
                 }
             } break;
 #endif
